@@ -136,6 +136,10 @@ class FQ(float):
   def is_integer(self):
     return self.frac.denominator == 1
 
+  def as_integer_ratio(self):
+    # Fraction(FQ) - hence ExactQ <op> FQ, which converts its right operand with Fraction() - stays exact
+    return (self.frac.numerator, self.frac.denominator)
+
   def __index__(self):
     if self.frac.denominator != 1:
       raise TypeError("FQ is not integral: %r" % self)
